@@ -792,6 +792,47 @@ func %s() {
 		fam.Instances = append(fam.Instances, Instance{Func: name, Stratum: "overlap:after-failure", Desc: pc.name + " fails, then two overlapping requests", Expect: []string{"executed"}, Nondet: true})
 	}
 	fam.Instances = append(fam.Instances, Instance{Func: "O_overlap_arguments", Stratum: "overlap", Desc: "overlap inside the argument evaluation of one call site", Expect: []string{"executed"}, Nondet: true})
+	// a call the engine rejects (impossible N/M split, unknown names only, empty DAG) after a request that
+	// returned values on the same engine: what comes back holds nothing of the earlier request
+	for k, rc := range []struct{ id, call string }{
+		{"NSortMConc", "gp.ExecuteNSortMConcurrent(2, 2, true, data)"},
+		{"NConcMSort", "gp.ExecuteNConcurrentMSort(2, 2, true, data)"},
+		{"NConcMSortZero", "gp.ExecuteNConcurrentMSort(0, 2, true, data)"},
+		{"NConcMConc", "gp.ExecuteNConcurrentMConcurrent(3, 1, true, data)"},
+		{"SelNSortMConc", "gp.ExecuteSelectedNSortMConcurrent(1, 1, true, []string{\"a\"}, data)"},
+		{"SelNConcMSort", "gp.ExecuteSelectedNConcurrentMSort(1, 2, true, []string{\"a\", \"b\"}, data)"},
+		{"SelNConcMConc", "gp.ExecuteSelectedNConcurrentMConcurrent(1, 1, true, []string{\"a\", \"zz\"}, data)"},
+		{"SelectedUnknown", "gp.ExecuteSelectedRules(data, []string{\"zz\"})"},
+		{"SelectedMixUnknown", "gp.ExecuteSelectedRulesMixModel(data, []string{\"zz\", \"yy\"})"},
+	} {
+		name := fmt.Sprintf("L4_rejected_%d_%s", k, rc.id)
+		fmt.Fprintf(&b, `
+// a request that returns values on both instances, then the rejected call %s
+func %s() {
+	gp := zzReqPool(1, 2)
+	for which := 0; which < 2; which++ {
+		var held *gengineWrapper
+		if which == 1 {
+			held, _ = gp.getGengine()
+		}
+		data := map[string]interface{}{"req": int64(7), "resp": int64(8), "fail": false, "quiet": false}
+		_, first := gp.Execute(data, true)
+		vnd.Assert(len(first) == 2, "the first request returns its two values")
+		data = map[string]interface{}{"req": int64(1), "resp": int64(2), "fail": false, "quiet": false}
+		err, res := %s
+		if held != nil {
+			gp.putGengineLocked(held)
+		}
+		vnd.Quiesce()
+		vnd.Assert(err != nil, "the call is rejected")
+		vnd.Assert(len(res) == 0, "a rejected call hands out nothing computed for another request")
+		vnd.Assert(len(first) == 2, "a returned result map is not modified by later requests")
+	}
+	vnd.Reach("executed")
+}
+`, rc.call, name, rc.call)
+		fam.Instances = append(fam.Instances, Instance{Func: name, Stratum: "L4:rejected", Desc: "rejected call " + rc.id + " after a returning request", Expect: []string{"executed"}})
+	}
 	fam.Instances = append(fam.Instances, Instance{Func: "O_overlap3", Stratum: "overlap", Desc: "three overlapping requests on a (1,3) pool", Expect: []string{"executed"}},
 		Instance{Func: "L4_conc_members", Stratum: "L4", Desc: "members of a conc block (three-level, assignment, method) are finished when the pool call returns", Expect: []string{"executed"}})
 	fam.Instances = append(fam.Instances, Instance{Func: "O_overlap", Stratum: "overlap", Desc: "two overlapping requests", Expect: []string{"executed"}},
